@@ -585,7 +585,22 @@ func RequestTimeout(t time.Duration) Option {
 // Dialer sets the uacp.Dialer to establish the connection to the server.
 func Dialer(d *uacp.Dialer) Option {
 	return func(cfg *Config) error {
-		cfg.dialer = d
+		// The options for the timeout and the buffer sizes modify the
+		// dialer of the configuration in place. Work on a copy: the
+		// dialer of the caller may be used for other clients as well.
+		cp := *d
+		if d.Dialer != nil {
+			nd := *d.Dialer
+			cp.Dialer = &nd
+		} else {
+			cp.Dialer = &net.Dialer{}
+		}
+		ack := *uacp.DefaultClientACK
+		if d.ClientACK != nil {
+			ack = *d.ClientACK
+		}
+		cp.ClientACK = &ack
+		cfg.dialer = &cp
 		return nil
 	}
 }
